@@ -200,7 +200,7 @@ def r11_3(ctx, rr):
     geometry_rule(ctx, rr, with_c=True)
 
 
-@rule("R16.6", props=["C16", "C07", "C12"], floor=4, title="the number of first segments l is sized from the largest shard and clamped to at least 1 (third vertex inside the l + 2 segments)", configs=("default", "mwhc"))
+@rule("R16.6", props=["C16", "C07", "C12", "C08"], floor=4, title="the number of first segments l is sized from the largest shard and clamped to at least 1 (third vertex inside the l + 2 segments)", configs=("default", "mwhc"))
 def r16_6(ctx, rr):
     geometry_rule(ctx, rr, with_c=False)
 
@@ -406,14 +406,14 @@ def r02_5(ctx, rr):
     for b in ones:
         k = int(re.search(r"ONES_STEP_(\d+)$", b.path).group(1))
         v = CE.ev(Termizer(F, b).term(b.body))
-        m = re.search(r"<(\d+), (\d+), C>", b.path)
+        m = re.search(r"<(\d+), (\d+), C[^>]*>", b.path)
         if m:
             slots = 7 if int(m.group(1)) in (2, 3) else 3
         else:
             slots = 7 if k == 9 else 4
         want = sum(1 << (k * i) for i in range(slots))
         nm = strip_generics(b.path).split("::")[-3:]
-        key = "%s[%s]:value" % ("::".join(nm), m.group(0) if m else "")
+        key = "%s[%s]:value" % ("::".join(nm), "<%s, %s, C>" % (m.group(1), m.group(2)) if m else "")
         rr.instances += 1
         rr.check(v == want, key, "%s must be the sum of 1 << (%d * i) for i < %d (= %#x); found %s" % (b.path, k, slots, want, hex(v) if isinstance(v, int) else v), b.span)
         mb = [x for x in F.bodies if x.dk in ("Const", "AssocConst") and x.path == b.path.replace("ONES_STEP", "MSBS_STEP")]
